@@ -10,7 +10,7 @@ edit of one member every other member is unchanged."""
 import copy
 
 from cgsim import gen as G, ref, peers
-from cgsim.core import fp, Skip
+from cgsim.core import fp, Skip, state_digest
 
 ID = "C19"
 QUICK = dict(worlds=16, runs=400, seconds=25)
@@ -129,8 +129,11 @@ def do_call(cg, f, c, other, ks, p):
         bbs = sorted(c.blackboxes)
         if bbs and not bad:
             bb = c.blackboxes[bbs[0]]
-            d = sorted(bb.inputs())[ks[0] % len(bb.inputs())] if bb.inputs() else "d"
-            q = sorted(bb.outputs())[ks[1] % len(bb.outputs())] if bb.outputs() else "q"
+            ins_, outs_ = sorted(bb.inputs()), sorted(bb.outputs())
+            d = "d" if "d" in ins_ else (ins_[ks[0] % len(ins_)] if ins_ else "d")
+            q = "q" if "q" in outs_ else (outs_[ks[1] % len(outs_)] if outs_ else "q")
+            if ks[0] % 7 == 0 and ins_:
+                d = ins_[ks[0] % len(ins_)]
         else:
             d, q = "d", "q"
         return tx.sequential_unroll(c, n, d, q, ignore_pins=["clk"] if flag else None, add_flop_outputs=flag2,
@@ -331,7 +334,8 @@ def run(case, ctx):
                 res = do_call(cg, f, c, other, ks, p)
             except Exception as e:
                 exc = e
-            ctx.log(step, "call", f, i, j, "ret" if exc is None else type(exc).__name__)
+            ctx.log(step, "call", f, i, j, "ret" if exc is None else type(exc).__name__,
+                    [state_digest(x) for x in circuits_in(cg, res)][:3], res if isinstance(res, str) and len(res) < 400 else None)
             ctx.probe(f"{f}:{'ret' if exc is None else 'raise'}")
             if exc is None:
                 n_ret += 1
